@@ -78,6 +78,10 @@ type Case struct {
 	// is idle at the tip when the reorganisation begins (then nobody else
 	// wants the chain-update lock the block handler holds while it sleeps).
 	RollbackStepMs int `json:"rollback_step_ms,omitempty"`
+	// Restart: after Stop a second client is started on the same directory:
+	// "" (no) | plain | assert-holds | assert-fails (Config.AssertFilterHeader
+	// with a true / a wrong value).
+	Restart string `json:"restart,omitempty"`
 }
 
 func genCase(t *rapid.T) Case {
@@ -94,6 +98,7 @@ func genCase(t *rapid.T) Case {
 	// reorganisation (their views end at base+9 at most)
 	ws.Branches = []kit.BranchSpec{{Parent: 0, At: max(1, base-kit.Pick(t, "forkback", []int{1, 3, 3, 6})), Len: 17, Pace: 1}}
 	c := Case{World: ws}
+	c.Restart = kit.Pick(t, "restart", []string{"", "plain", "plain", "assert-holds", "assert-fails"})
 	switch kit.Uni(t, "prefillsel", 3) {
 	case 0:
 		c.Prefill = 0
@@ -607,56 +612,138 @@ func runCase(t *testing.T, c Case) kit.Verdict {
 	if v.Violation != "" || dataDir == "" {
 		return v
 	}
-	// The data directory must reopen with the C01 / C03 guarantees.
+	if !storeChecks(w, dataDir, fail) {
+		return v
+	}
+	// ... and syncing resumes from it: a second client is started on the
+	// directory, with one well-behaved peer it has not met before (the
+	// addresses of the first run may be banned) that serves the heaviest
+	// chain of the world; within ten virtual minutes its best block must be
+	// that chain's tip with the filter headers level, and it must stop.
+	if c.Restart != "" {
+		restart(t, c, w, dataDir, &v, fail)
+		if v.Violation == "" && v.Harness == "" {
+			storeChecks(w, dataDir, fail)
+		}
+	}
+	_ = base
+	return v
+}
+
+// storeChecks reopens the data directory without a client and walks it: the
+// C01 / C03 guarantees must hold on what Stop left behind.
+func storeChecks(w *kit.World, dataDir string, fail func(sym, format string, a ...any)) bool {
 	db, err := netsim.OpenDB(dataDir, false)
 	if err != nil {
 		fail("reopen/db", "database cannot be reopened after Stop: %v", err)
-		return v
+		return false
 	}
 	defer db.Close()
 	params := w.Params
 	bs, err := headerfs.NewBlockHeaderStore(dataDir, db, &params)
 	if err != nil {
 		fail("reopen/block-store", "block header store cannot be reopened after Stop: %v", err)
-		return v
+		return false
 	}
 	fs, err := headerfs.NewFilterHeaderStore(dataDir, db, headerfs.RegularFilter, &params, nil)
 	if err != nil {
 		fail("reopen/filter-store", "filter header store cannot be reopened after Stop: %v", err)
-		return v
+		return false
 	}
 	bsn, e := netsim.SnapChain(bs)
 	if e != "" {
 		fail("reopen/unreadable", "after Stop and reopen: %s", e)
-		return v
+		return false
 	}
 	if e := w.Rules.CheckChain(bsn.Hdrs, 1, nil); e != "" {
 		fail("reopen/invalid-chain", "after Stop and reopen the block chain is not valid: %s", e)
-		return v
+		return false
 	}
 	if e := netsim.CheckLookups(bs, bsn, 0, nil); e != "" {
 		fail("reopen/lookups", "after Stop and reopen: %s", e)
-		return v
+		return false
 	}
 	fsn, e := netsim.SnapFilters(fs)
 	if e != "" {
 		fail("reopen/unreadable", "after Stop and reopen: %s", e)
-		return v
+		return false
 	}
 	if fsn.Tip > bsn.Tip {
 		fail("reopen/filter-ahead", "after Stop and reopen the filter tip %d is ahead of the block tip %d", fsn.Tip, bsn.Tip)
-		return v
+		return false
 	}
 	for h := uint32(0); h <= fsn.Tip; h++ {
 		n := w.ByHash[bsn.Hashes[h]]
 		if n == nil || fsn.Hdrs[h] != n.FHdr {
 			fail("reopen/filter-content", "after Stop and reopen the filter header at height %d is not the one of the block stored there", h)
-			return v
+			return false
 		}
 	}
-	_ = base
 	_ = chainhash.Hash{}
-	return v
+	return true
+}
+
+// restart runs a second client on the directory the first one left behind.
+func restart(t *testing.T, c Case, w *kit.World, dataDir string, v *kit.Verdict, fail func(sym, format string, a ...any)) {
+	best := w.Br[0].Tip()
+	for _, b := range w.Br[1:] {
+		if b.Tip().Work.Cmp(best.Work) > 0 {
+			best = b.Tip()
+		}
+	}
+	np := len(c.Peers) + 1
+	cfg := netsim.Config{World: w, NumPeers: np, Initial: []int{np - 1}, ReuseDir: dataDir}
+	if c.Restart == "assert-holds" || c.Restart == "assert-fails" {
+		// Config.AssertFilterHeader: a filter header the operator knows
+		// (here: of a block every chain of the world shares). A wrong
+		// value makes the client purge its filter headers and fetch
+		// them again, which must converge just the same.
+		n := w.Node(0, min(3, c.World.Base))
+		fh := n.FHdr
+		if c.Restart == "assert-fails" {
+			fh = chainhash.HashH(append([]byte("wrong"), fh[:]...))
+		}
+		cfg.Tweak = func(nc *neutrino.Config) {
+			nc.AssertFilterHeader = &headerfs.FilterHeader{HeaderHash: n.Hash, FilterHash: fh, Height: uint32(n.Height)}
+		}
+	}
+	v.Class("restart:%s", c.Restart)
+	res := netsim.Run(t, cfg, func(s *netsim.Sim) {
+		s.Peers[np-1].SetView(best, false)
+	}, func(s *netsim.Sim) {
+		ok := false
+		for k := 0; k < 120 && !ok; k++ {
+			if !s.Advance(5 * time.Second) {
+				return
+			}
+			bb, err := s.CS.BestBlock()
+			ok = err == nil && bb.Hash == best.Hash
+		}
+		_, bt, _ := s.CS.BlockHeaders.ChainTip()
+		_, ft, _ := s.CS.RegFilterHeaders.ChainTip()
+		v.Logf("restart (%s): block tip %d filter tip %d, wanted %d, converged=%v", c.Restart, bt, ft, best.Height, ok)
+		if !ok {
+			fail("restart/no-resume", "a client restarted on the directory (%s) with one well-behaved peer serving the heaviest chain (tip %d) has block tip %d and filter tip %d after ten virtual minutes: syncing did not resume", c.Restart, best.Height, bt, ft)
+			return
+		}
+		done := make(chan struct{})
+		go func() { defer close(done); _ = s.StopClient() }()
+		for k := 0; k < 120; k++ {
+			s.Settle()
+			select {
+			case <-done:
+				return
+			default:
+			}
+			if !s.Advance(time.Second) {
+				return
+			}
+		}
+		fail("restart/stop-hangs", "Stop of the restarted client did not return within 120 virtual seconds")
+	})
+	if res.Harness != "" {
+		v.Harness = "restart: " + res.Harness
+	}
 }
 
 func TestC17(t *testing.T) {
